@@ -277,7 +277,7 @@ def gen_module(rng, tier="quick"):
     return {"name": rng.choice(["top", "top", "m_1", "c17"]), "ports": ports, "items": items}, bbs_used or ([BBS[0]] if rng.random() < 0.3 else [])
 
 
-MALFORMED = ["port_extra", "port_missing_in", "port_missing_out", "bb_positional", "prim_named", "unknown_module", "output_absent",
+MALFORMED = ["port_wire", "port_wire", "port_extra", "port_missing_in", "port_missing_out", "bb_positional", "prim_named", "unknown_module", "output_absent",
              "double_driver", "driven_input", "not_two_inputs", "bad_pin"]
 
 
@@ -288,7 +288,15 @@ def corrupt(rng, m, bbs):
     items = m["items"]
     ins = [n for it in items if it[0] == "input" for n in it[1]]
     outs = [n for it in items if it[0] == "output" for n in it[1]]
-    if kind == "port_extra":
+    if kind == "port_wire":
+        # a port that is neither input nor output but is declared as a wire (on a later line): must be rejected
+        p = rng.choice(["zz", "extra", "w_only"])
+        m["ports"].insert(rng.randint(0, len(m["ports"])), p)
+        pos = rng.choice([len(items), rng.randint(0, len(items))])
+        items.insert(pos, ["wire", [p] + ([rng.choice(ins)] if rng.random() < 0.2 else [])])
+        if rng.random() < 0.5:
+            items.append(["assign", [[p, vu.gen_cond(rng, rng.randint(0, 1), ins, None)]]])
+    elif kind == "port_extra":
         m["ports"].insert(rng.randint(0, len(m["ports"])), rng.choice(["zz", "extra", "tie_0"]))
     elif kind == "port_missing_in":
         only = [n for n in ins if n not in outs]
@@ -356,6 +364,13 @@ def gen_parse(rng):
     return {"fn": "parse", "toks": toks, "kind": kind, "text": vu.render(rng, toks, stress=rng.choice([0, 0.3]))}
 
 
+def decoy_module(rng, name):
+    """text of a different, well-formed module of the same name (several lines)"""
+    g = rng.choice(["~a", "a", "a & a", "1'b0"])
+    return rng.choice([f"module {name}(a, zz);\n  input a;\n  output zz;\n  assign zz = {g};\nendmodule",
+                       f"module {name} (zz);\n output zz;\n assign zz = 1'b1;\n endmodule"])
+
+
 def gen_read(rng, tier, malformed=False):
     for _ in range(50):
         m, bbs = gen_module(rng, tier)
@@ -366,9 +381,18 @@ def gen_read(rng, tier, malformed=False):
                 continue
             m, bbs, kind = r
         stress = rng.choice([0.0, 0.15, 0.4])
-        text = vu.render(rng, vu.toks_module(m), stress)
+        # an earlier revision of the same module, kept in a block comment over several lines (seeded C02-s5)
+        decoy = decoy_module(rng, m["name"])
+        text = vu.render(rng, vu.toks_module(m), stress, extra=[decoy])
         if rng.random() < 0.15:
             text = "// header\n" + text + "\nmodule other(a); input a; endmodule\n" if rng.random() < 0.5 else "\n\n" + text
+        r = rng.random()
+        if r < 0.2:
+            text = "/* previous revision\n" + decoy + "\n*/\n" + text
+        elif r < 0.3:
+            text = text + "\n/*\n" + decoy + "\n*/\n"
+        elif r < 0.35:
+            text = "/*\n" + decoy + "\n*/\n" + text + "/* " + decoy + " */"
         return {"fn": "read", "module": m, "bbs": bbs, "text": text, "kind": kind}
     raise RuntimeError("generator stuck")
 
@@ -385,7 +409,9 @@ def gen_select(rng):
         for x in b:
             if x not in bbs:
                 bbs.append(x)
-        parts.append(vu.render(rng, vu.toks_module(m), rng.choice([0.0, 0.15])))
+        parts.append(vu.render(rng, vu.toks_module(m), rng.choice([0.0, 0.15]), extra=[decoy_module(rng, nm)]))
+        if rng.random() < 0.25:
+            parts[-1] = "/*\n" + decoy_module(rng, nm) + "\n*/\n" + parts[-1]
     r = rng.random()
     name = rng.choice(names) if r < 0.6 else rng.choice(["nosuch", "to", "top3", "module"])
     sep = rng.choice(["\n", "\n\n// next\n", "\n/* between */\n", "  "])
@@ -522,6 +548,9 @@ def classify(case, obs):
         tags.append("ternary")
     if "/*" in case["text"] or "//" in case["text"]:
         tags.append("comments")
+    import re as _re
+    if _re.search(r"/\*[^*]*\n[^*]*module\s+" + _re.escape(m["name"]) + r"\s*\(", case["text"]):
+        tags.append("commented-out-module-of-same-name")
     for it in m["items"]:
         if it[0] == "inst" and it[1] in vu.PRIMS:
             for _, (k, ps) in it[2]:
